@@ -15,7 +15,9 @@ class GopherProtocol(BaseGopherProtocol):
     def renderobjinfo(self, entry):
         retval = (
             entry.gettype("0")
-            + entry.getname()
+            # An entry without a display name (e.g. a link block without a
+            # Name= line) is shown under its selector, as the HTTP renderer does.
+            + entry.getname(entry.getselector())
             + "\t"
             + entry.getselector()
             + "\t"
